@@ -262,6 +262,50 @@ def small_scope_streams():
                 yield ("stream-return-single", combo), set(), "module M\ninterface I { op() -> %sbool }\n" % ("stream " if combo[0] else "")
 
 
+def small_scope_key_structs():
+    """Every ordered pair / triple of field types in a compact struct that is used as a dictionary key (directly and one struct
+    deeper): the struct is a legal key exactly when every field is."""
+    fields = [("int32", True), ("Inner", True), ("Inner?", False), ("Sbad", False), ("string?", False), ("Eb", True), ("Eb?", False),
+              ("float64", False), ("Inner2", True)]
+    defs = ("enum Eb : uint8 { A }\ncompact struct Inner { a: int32 }\ncompact struct Inner2 { i: Inner, e: Eb }\n"
+            "compact struct Sbad { a: int32, b: float64 }\n")
+    for n in (1, 2, 3):
+        for combo in itertools.product(fields, repeat=n):
+            if n == 3 and len(set(f for f, _ in combo)) == 3 and all(ok for _, ok in combo):
+                continue    # keep the triple space to the interesting part: a repeated type or an illegal field
+            ok = all(o for _, o in combo)
+            body = ", ".join("f%d: %s" % (i, f) for i, (f, _) in enumerate(combo))
+            for depth in (0, 1):
+                key = "compact struct K { %s }\n" % body
+                if depth:
+                    key += "compact struct Outer { z: int8, k: K }\n"
+                use = "struct U { d: Dictionary<%s, bool> }\n" % ("Outer" if depth else "K")
+                yield ("key-struct", tuple(f for f, _ in combo), depth), (set() if ok else {"E006"}), "module M\n" + defs + key + use
+
+
+def small_scope_module_clash():
+    """A definition may not share its scoped identifier with a module - declared or implied as an enclosing module of a
+    declared one ('module A::B::C' implies A and A::B). All module paths of depth <= 3 over {A, B} for the defining and
+    the other file, each definition kind, both file orders. Yields multi-file cases."""
+    paths = [p for n in (1, 2, 3) for p in ("::".join(x) for x in itertools.product("AB", repeat=n))]
+    kinds = {"struct": "struct %s { m: bool }", "enum": "enum %s { m }", "interface": "interface %s { m() }", "custom": "custom %s",
+             "alias": "typealias %s = bool"}
+    for p in paths:
+        if p.count("::") > 1:
+            continue
+        for q in paths:
+            for name in "AB":
+                scoped = p + "::" + name
+                clash = q == scoped or q.startswith(scoped + "::")
+                for kind, tpl in kinds.items():
+                    if kind not in ("struct", "interface") and (len(p) + len(q)) % 3:
+                        continue   # the other kinds on a third of the module pairs
+                    f1 = "module %s\n%s\n" % (p, tpl % name)
+                    f2 = "module %s\nstruct Other { x: bool }\n" % q
+                    for order in (0, 1):
+                        yield ("module-clash", p, q, name, kind, order), ({"E010"} if clash else set()), ([f1, f2] if order == 0 else [f2, f1])
+
+
 def judge(ctx, texts, codes, r, family, key, single):
     replay = {"kind": "library", "call": "compile_from_strings", "files": texts, "family": family, "rule": str(key), "expected_codes": sorted(codes)}
     if "died" in r or r.get("panic"):
@@ -341,15 +385,17 @@ def run_shard(ctx, spec):
             judge(ctx, texts, codes, r, "file-level", key, True)
             ctx.stats["file_level_cases"] += 1
     elif kind == "small":
-        fam = {"members": small_scope_members, "keys": small_scope_keys, "streams": small_scope_streams}[spec[1]]
-        items = list(fam())
+        fam = {"members": small_scope_members, "keys": small_scope_keys, "streams": small_scope_streams,
+               "key-structs": small_scope_key_structs, "module-clash": small_scope_module_clash}[spec[1]]
+        items = [(key, codes, text if isinstance(text, list) else [text]) for key, codes, text in fam()]
         for k in range(0, len(items), 500):
             chunk = items[k:k + 500]
-            resps = ctx.worker.batch([{"op": "compile", "files": [it[2]], "want": ["codes"]} for it in chunk])
-            for (key, codes, text), r in zip(chunk, resps):
+            resps = ctx.worker.batch([{"op": "compile", "files": it[2], "want": ["codes"]} for it in chunk])
+            for (key, codes, texts), r in zip(chunk, resps):
                 ctx.note_case(("small", key))
-                judge(ctx, [text], codes, r, "small-scope-" + spec[1], key, len(codes) == 1)
+                judge(ctx, texts, codes, r, "small-scope-" + spec[1], key, len(codes) == 1)
                 ctx.stats["small_scope_cases"] += 1
+                ctx.stats["small_scope_%s_cases" % spec[1].replace("-", "_")] += 1
     elif kind == "accept":
         _, count, idx = spec
         rng = ctx.rng("acc/%d" % idx)
@@ -365,7 +411,7 @@ def run_shard(ctx, spec):
 
 def plan(tier, seed):
     specs = [("injectors", i, 16) for i in range(16)]
-    specs += [("files",), ("small", "members"), ("small", "keys"), ("small", "streams")]
+    specs += [("files",), ("small", "members"), ("small", "keys"), ("small", "streams"), ("small", "key-structs"), ("small", "module-clash")]
     n = 16000 if tier == "quick" else 200000
     specs += [("accept", n // 16, i) for i in range(16)]
     return specs
@@ -383,10 +429,13 @@ def main(tier, seed):
               "position where it is illegal, ...) appended to %d hosts each, k=2..3 random combinations, whole-file cases; emitted "
               "error codes must be a non-empty subset of the violated rules' codes and contain the rule's code for single "
               "violations. Small-scope exhaustive: every {tag, optional, compact} assignment over <= 3 members in 6 containers, %d "
-              "key forms x 5 places, every stream placement over <= 3 parameters / return members. distinct_nontrivial = distinct "
+              "key forms x 5 places, every stream placement over <= 3 parameters / return members, every ordered pair (and the "
+              "interesting triples) of 9 field types in a compact key struct used directly and one struct deeper, every pair of "
+              "module paths of depth <= 3 over {A, B} with a definition of each kind named like a module segment (both file "
+              "orders). distinct_nontrivial = distinct "
               "(rule, host) / family members / programs" % (ninj, 13 if tier == "quick" else 41, len(KEY_FORMS))),
         required={"injector_rules": 150, "reject_cases": 1500, "accept_cases": 1000, "small_scope_cases": 1000, "combination_cases": 500,
-                  "file_level_cases": 15},
+                  "file_level_cases": 15, "small_scope_key_structs_cases": 500, "small_scope_module_clash_cases": 500},
         assumptions=["parameters and return members are separate name scopes", "`A()` under an underlying type is not generated",
                      "tag 2^127 may be reported as an integer literal overflow (E030) instead of E021",
                      "two streamed members violate one rule whose codes are E013 and E029"],
